@@ -164,6 +164,7 @@ def check_C01(F, tier, t0):
     guarded(R, 'S operations', run_S, R, E, spec_bdd.BDD_SCOPE['C03'] + spec_bdd.BDD_SCOPE['C04'] + spec_bdd.BDD_SCOPE['C05'] + ['fp'])
     guarded(R, 'T tokens', engine_t.rule_tokens, F, R, 'all')
     guarded(R, 'T operators', engine_t.rule_operator_tables, F, R)
+    guarded(R, 'T regex', engine_t.rule_regex, F, R)
     R.floor('functions', 28); R.floor('worlds', 40); R.floor('T:symbol-spellings', 20); R.floor('T:keyword-spellings', 23)
     R.floor('T:binary-operator-rows', 8); R.floor('T:counting-operator-rows', 5); R.floor('T:fixed-point-rows', 2)
     return finish(R, 'other', tier, t0,
@@ -198,6 +199,7 @@ def check_C02(F, tier, t0):
     guarded(R, 'E1', engine_e.rule_E1, F, R)
     guarded(R, 'E5', engine_e.rule_E5_events, R, res)
     guarded(R, 'H', engine_e.rule_H, F, R)
+    guarded(R, 'X5', engine_x.rule_X5, F, R)      # distinct variable names get distinct ids: two variables that alias are one symbol to the diagram
     # functions that do not call mk_choice must not build nodes any other way: covered by E1 (constructor sites) workspace-wide
     R.floor('mk_choice-call-sites', 6); R.floor('E1:Choice-constructor-sites', 2); R.floor('functions', 12); R.floor('H:impl-bodies', 4); R.floor('mk_choice-sites-x-worlds', 8)
     return finish(R, 'other', tier, t0,
@@ -302,11 +304,29 @@ def check_C06(F, tier, t0):
         'finite lattice given monotonicity and C02 - mathematics with no code content left once (a)-(d) hold.',
         TRUSTED, ['monotone bodies (property precondition); Kleene fixed-point theorem on a finite lattice'], './check C06')
 
+def front_end(R, F):
+    """the language front end every formula-level property rests on: spellings of symbols and keywords, operator tables, tokenizer regex"""
+    guarded(R, 'T tokens', engine_t.rule_tokens, F, R, 'all')
+    guarded(R, 'T operators', engine_t.rule_operator_tables, F, R)
+    guarded(R, 'T regex', engine_t.rule_regex, F, R)
+
+def evaluation(R, E):
+    """the evaluator and the operations it dispatches to (the proofs of C01 / C03 / C04 / C05), for properties stated about `the formula`"""
+    guarded(R, 'S eval_recursive', run_S, R, E, [EVF, RVF])
+    guarded(R, 'S operations', run_S, R, E, spec_bdd.BDD_SCOPE['C03'] + spec_bdd.BDD_SCOPE['C04'] + spec_bdd.BDD_SCOPE['C05'] + ['fp'])
+
 def check_C07(F, tier, t0):
     R = Report('C07')
     E = make_engine(F)
     guarded(R, 'S model/infer', run_S, R, E, spec_bdd.BDD_SCOPE['C07'])
-    guarded(R, 'X4 model', engine_x.rule_X4, F, R, ('model',))
+    guarded(R, 'X4 model', engine_x.rule_X4, F, R, ('model', 'parse', 'vars', 'tablefilter'))
+    # `rsbdd -m -t` prints the model of *the formula* as a truth-table row: front end, evaluation and the table printer are links of that chain
+    front_end(R, F)
+    evaluation(R, E)
+    guarded(R, 'X1', engine_x.rule_X1_printers, F, R)
+    guarded(R, 'X2', engine_x.rule_X2, F, R, ('table',))
+    guarded(R, 'X3', engine_x.rule_X3, F, R)
+    guarded(R, 'S var_is_free', run_S, R, E, [FRF], spec_bdd.B, False)
     R.floor('functions', 2); R.floor('worlds', 4); R.floor('X4:model-before-printing', 1)
     return finish(R, 'other', tier, t0,
         'Engine S, inductively over all shapes of the node and of the two recursive results: model(a) implies a pointwise; a leaf is returned unchanged; the False result is '
@@ -344,6 +364,7 @@ def check_C09(F, tier, t0):
     guarded(R, 'S/O quantifier support', run_S, R, E, ['exists_impl', 'exists', 'all'])
     guarded(R, 'X4 vars', engine_x.rule_X4, F, R, ('vars',))
     guarded(R, 'X3 order', engine_x.rule_X3, F, R)
+    front_end(R, F)
     R.floor('functions', 5); R.floor('worlds', 16); R.floor('X4:extract_vars', 1); R.floor('X4:free_vars-fill', 1)
     return finish(R, 'other', tier, t0,
         'var_is_free is checked against the textbook definition for every in-scope constructor (binders of quantifiers and fixed points shadow; disjunction over children '
@@ -359,11 +380,15 @@ def check_C10(F, tier, t0):
     guarded(R, 'X2', engine_x.rule_X2, F, R, ('table',))
     guarded(R, 'X3', engine_x.rule_X3, F, R)
     guarded(R, 'X4', engine_x.rule_X4, F, R, ('parse', 'model', 'retain', 'vars', 'tablefilter'))
+    front_end(R, F)
     # the header is free_vars: it is right only if the free-variable analysis is
     E = make_engine(F)
     guarded(R, 'S var_is_free', run_S, R, E, [FRF], spec_bdd.B, False)
     guarded(R, 'S helper predicates', run_S, R, E, spec_bdd.HELPER_FNS, spec_bdd.B, False)
     guarded(R, 'T filter spellings', engine_t.rule_tte, F, R)
+    # the rows are those of *the formula* (and of its model under -m, its retained form under -c): evaluation, model and retain are links of the chain
+    evaluation(R, E)
+    guarded(R, 'S model / retain', run_S, R, E, spec_bdd.BDD_SCOPE['C07'] + spec_bdd.BDD_SCOPE['C20'])
     R.floor('X1:recursive-descent-sites', 2); R.floor('X2:row-filter-cases', 6); R.floor('X3:index-sites', 4); R.floor('T:filter-spelling-rows', 3)
     return finish(R, 'other', tier, t0,
         'Clauses: branch polarity of both printers (true-branch records True); the row predicate over filter x leaf (printed iff filter=Any or filter=leaf) and -v printing '
@@ -379,6 +404,9 @@ def check_C11(F, tier, t0):
     guarded(R, 'X3', engine_x.rule_X3, F, R)
     guarded(R, 'X4', engine_x.rule_X4, F, R, ('order', 'export'))
     guarded(R, 'H', engine_e.rule_H, F, R)
+    # the semantic core: every operation is proved for an arbitrary total order of an arbitrary symbol type (C01 / C03 / C04 / C05)
+    E = make_engine(F)
+    evaluation(R, E)
     R.floor('X5:id-registration-sites', 1); R.floor('X4:ordering-flow', 1); R.floor('X4:export-ordering', 1)
     return finish(R, 'other', tier, t0,
         'Clauses: counter invariant of tokenize (after every registration the fresh-id counter exceeds every registered id, names are looked up before a fresh id is taken); '
